@@ -239,4 +239,25 @@ MUTANTS = [
 
     def __repr__(self):
         return u'<%s:variant=%s>' % (self.__class__.__name__, self._variant.uid)""")]},
+    # ---- the code under test hangs / kills the interpreter (only for a class of inputs the tests never build)
+    {"name": "rb-endless-loop-in-parent-arch-check", "prop": "C11", "edits": [(CI, """    def _validate_parent_arch(self):
+        if self.parent is None:
+            return""", """    def _validate_parent_arch(self):
+        if self.parent is None:
+            return
+        while len(self.arches) == 3 and self.type == "addon":
+            pass""")]},
+    {"name": "rb-interpreter-abort-in-parent-arch-check", "prop": "C11", "edits": [(CI, """    def _validate_parent_arch(self):
+        if self.parent is None:
+            return""", """    def _validate_parent_arch(self):
+        if self.parent is None:
+            return
+        if len(self.arches) == 3 and self.type == "addon":
+            import os
+            os.abort()""")]},
+    {"name": "rb-unbounded-recursion-in-discinfo-description", "prop": ["C04", "C06"], "edits": [(DI, """    def _validate_description(self):
+        self._assert_not_blank("description")""", """    def _validate_description(self):
+        if self.description and len(self.description) > 60:
+            return self._validate_description()
+        self._assert_not_blank("description")""")]},
 ]
